@@ -141,8 +141,16 @@ assert " ".join(_abs.ensures[0].text.split()) == " ".join(FRESH.replace("self", 
 assert [" ".join(c.text.split()) for c in _abs.requires] == [" ".join(c.text.split()) for c in CTOR_PRE]
 
 from pyvc.spec import trusted  # noqa: E402
-trusted("deme class invariants (DemePop, CmaDeme, SamplerDeme, LocalInv) are "
-        "assumed at the entry of each concrete run_metaepoch: they are proved to be established by the constructors and "
-        "kept by run_metaepoch; that the rest of the tree code does not break them is a framing argument on paper (DESIGN.md section 4)")
 trusted("level configurations are sane: pop_size >= 1, generations >= 1, a sprout seed for CMA-ES / local-search levels, a configuration "
         "object of the class the deme class expects (the built-in class table guarantees the latter)")
+
+# ---- the class invariant of whatever deme class an object has (used by the tree invariant: S_deme / DemeOk in d10) ---------------------------
+macro("ClassInv", ["d"], """
+    imp(exact_type(d, 'EADeme'), DemePop(d) and cast(d, 'ref:EADeme')._ea != None and cast(d, 'ref:EADeme')._generations >= 1)
+    and imp(exact_type(d, 'DEDeme'), DemePop(d) and cast(d, 'ref:DEDeme')._de != None and cast(d, 'ref:DEDeme')._generations >= 1)
+    and imp(exact_type(d, 'SHADEDeme'), DemePop(d) and cast(d, 'ref:SHADEDeme')._shade != None and cast(d, 'ref:SHADEDeme')._generations >= 1)
+    and imp(exact_type(d, 'CMADeme'), CmaDeme(cast(d, 'ref:CMADeme')))
+    and imp(exact_type(d, 'LHSDeme'), SamplerDeme(cast(d, 'ref:LHSDeme')))
+    and imp(exact_type(d, 'SobolDeme'), SamplerDeme(cast(d, 'ref:SobolDeme')))
+    and imp(exact_type(d, 'LocalDeme'), LocalInv(cast(d, 'ref:LocalDeme')))
+""")
